@@ -249,3 +249,33 @@ Theorem C11_generated_check_credentials_is_model :
     = Ok (PBool (check_credentials Hh Ho Unq d e)).
 Proof. exact gen_check_credentials_eq. Qed.
 Print Assumptions C11_generated_check_credentials_is_model.
+
+(* the request gate (innermost function of check_digest: header missing /
+   wrong scheme / nonce not verified (stale) / credentials invalid -> 401,
+   else req.user is set and the endpoint runs) generated from the source is
+   the model's [gate].  [hdr] = None: no Authorization header ([hv], the
+   value of req.headers, has the key exactly when hdr is Some); Some d:
+   req.authorization is [d].  check_token is the definition generated from
+   session.py (gen/TokenGen.v, C16) at the exact time [clock (r_time e)].
+   Outcomes ([inj_result]): Run u = [pcall_endpoint (PStr u)] (`fun(req)`
+   reached with req.user = u); Deny401 stale = HTTPException(401,
+   realm=..[, stale=True]); Crash = the KeyError / ZeroDivisionError. *)
+Require Import PW.gen.TokenGen PW.proofs.TokenGenEq.
+
+Theorem C11_generated_check_digest_is_model :
+  forall Hh Ho Unq Ht hdr e qv hv authv,
+    qop_ok qv (c_qop e) ->
+    pnot_contains (PStr s_Authorization) hv
+    = Ok (PBool (negb (is_some hdr))) ->
+    (forall d, hdr = Some d -> authv = inj_dict d) ->
+    0 <= r_time e -> (forall T, c_timeout e = Some T -> 0 <= T) ->
+    gen_digest_handler Hh Ho Unq
+      (fun a b c d => gen_check_token Ht a b c d (clock (r_time e)))
+      authv (PStr (r_method e))
+      (PStr (req_path e)) (PStr (req_query e)) (PStr (r_host e))
+      (PStr (c_algorithm e)) qv (inj_map (c_map e))
+      hv (PStr (c_secret e)) (PStr (r_client e)) (inj_to (c_timeout e))
+      (PStr (c_realm e)) (inj_user (c_user e))
+    = inj_result (c_realm e) hdr (gate Ht Hh Ho Unq hdr e).
+Proof. exact gen_digest_handler_token_eq. Qed.
+Print Assumptions C11_generated_check_digest_is_model.
